@@ -606,6 +606,7 @@ def get_roundtrip(ctx, worlds):
 
 
 def run(ctx):
+    U.fix_axioms(ctx)
     ctx.rule = ('register contents drawn from pools of integers, eighths, thousandths, rounding ties, values beyond the valid '
                 'ranges and huge values, in each unit mode; each case is run through all ten command kinds in two device '
                 'populations; a case is non-trivial when at least one command transmitted; distinct = distinct '
